@@ -1169,7 +1169,71 @@ func snapshot(u *url.Url) string {
 	return fmt.Sprintf("%v|%v|%q|%v|%v|%v", getters(u), u.Href(true), d.SearchParams, u.DecodedPort(), u.OpaquePath(), u.IsIPv4())
 }
 
+// every kind of base x every kind of reference (or Clone) x every operation that writes a shared part in place
+// (path stripping, path replacement, list write-through, host/port/credentials), applied to either side
+func streamC13Enumerated(o *Out) {
+	bases := []string{"sc:opaque  #f", "data:text/plain,x  ?q#f", "sc:opaque  ", "http://u:p@h:8/a/b?x=1#f", "file:///C:/a/b?q#f", "sc://h/p/q?a=b#f", "sc:/p/q", "http://h/a b/c?a=1&b=2"}
+	refs := []string{"\x00CLONE", "#s", "", "?z=1", "x", "/y", "../z", "//h2/w", "#"}
+	type opf struct {
+		name string
+		f    func(h *Hist, k int)
+	}
+	ops := []opf{
+		{"SetHash(\"\")", func(h *Hist, k int) { h.Set(k, 8, "") }},
+		{"SetSearch(\"\")", func(h *Hist, k int) { h.Set(k, 7, "") }},
+		{"SetHash+SetSearch(\"\")", func(h *Hist, k int) { h.Set(k, 8, ""); h.Set(k, 7, "") }},
+		{"SetPathname", func(h *Hist, k int) { h.Set(k, 6, "/n/e/w") }},
+		{"SetPathname(\"\")", func(h *Hist, k int) { h.Set(k, 6, "") }},
+		{"SetSearch", func(h *Hist, k int) { h.Set(k, 7, "n=1") }},
+		{"SetHost", func(h *Hist, k int) { h.Set(k, 3, "other:9") }},
+		{"SetUsername", func(h *Hist, k int) { h.Set(k, 1, "w") }},
+		{"SetProtocol", func(h *Hist, k int) { h.Set(k, 0, "https") }},
+		{"Append", func(h *Hist, k int) {
+			if s := h.Grab(k); s >= 0 {
+				h.QAppend(s, "n", "v")
+			}
+		}},
+		{"Resolve", func(h *Hist, k int) { h.Resolve(k, "../r?s#t") }},
+	}
+	for _, b := range bases {
+		for _, ref := range refs {
+			for _, op := range ops {
+				for side := 0; side < 2; side++ {
+					h := &Hist{}
+					a := h.ParsePkg(b)
+					if a < 0 {
+						continue
+					}
+					var c int
+					kind := "resolve"
+					if ref == "\x00CLONE" {
+						c = h.Clone(a)
+						kind = "clone"
+					} else {
+						c = h.Resolve(a, ref)
+					}
+					if c < 0 {
+						continue
+					}
+					on, other := a, c
+					if side == 1 {
+						on, other = c, a
+					}
+					before := snapshot(h.urls[other])
+					op.f(h, on)
+					orc.Eval("C13")
+					if snapshot(h.urls[other]) != before {
+						orc.Fail("C13", "shared-state-"+kind, op.name+" on one value changed the other", strings.Join(h.ops, " ; "))
+					}
+					o.EmitHist("n", h)
+				}
+			}
+		}
+	}
+}
+
 func streamC13(r *Rand, n int, o *Out) {
+	streamC13Enumerated(o)
 	for i := 0; i < n; i++ {
 		rr := r.Fork()
 		h := &Hist{}
